@@ -89,7 +89,7 @@ class RespRule(BaseRule):
             s.ts["ev"] = s.ts.get("ev", ()) + ("read-to-eof" if (not node.args and not any(k.arg == "amt" for k in node.keywords)) else "read-partial",)
             s.log(node, "READ body through the error catcher")
             outs = [Out("normal", s, AV("unk", sym="data"))]
-            for e in (exc("urllib3.exceptions.ProtocolError"), exc("builtins.OSError"), BASE_TOP):
+            for e in (exc("urllib3.exceptions.ProtocolError"), exc("urllib3.exceptions.DecodeError"), exc("builtins.OSError"), exc("http.client.HTTPException"), BASE_TOP):
                 s2 = s.copy()
                 s2.log(node, f"read raises {e.val}")
                 outs.append(Out("raise", s2, e))
@@ -269,13 +269,8 @@ def run(ctx):
     ctx.sites(R7, len(reads), 1, "read call in drain_conn")
     for c in reads:
         to_eof = not c.args and not any(k.arg == "amt" for k in c.keywords)
-        tries = astq.enclosing_tries(astq.stmt_of(c))
-        caught = set()
-        for t in tries:
-            for h in t.handlers:
-                caught |= set(astq.handler_type_names(h))
-        ok = to_eof and {"HTTPError", "OSError"} <= caught
-        ctx.ob(R7, fi.qual, "drain reads to EOF and swallows only transport/urllib3 errors", ok, f"args={astq.text(c)} caught={sorted(caught)}", node=c)
+        ctx.ob(R7, fi.qual, "drain reads to EOF", to_eof, f"args={astq.text(c)}", node=c)
+    # (that transport / urllib3 errors are swallowed is decided on paths below: no ProtocolError / OSError / HTTPException escapes)
     # every path of drain_conn on which the response still holds a connection goes through the reader (whose catcher
     # returns the slot, R6): a shortcut that skips the read skips the only release there is
     rule = RespRule()
@@ -354,14 +349,28 @@ def run(ctx):
                 return [Out("normal", st, AV("exc", "urllib3.exceptions.ProxyError", truth=True, none=False))]
             if t == "self.urlopen":
                 return super().call(it, st, node, recv, pos, kw)
+            if q in it.inline:
+                return None  # an unmodelled private helper of the pool (e.g. an extracted error-translation step): interpreted in place
             return [Out("normal", st, UNK)]
 
     qf = queue_field(m)
+    modelled_r8 = {"_make_request", "_get_conn", "_put_conn", "_new_conn", "_prepare_proxy", "_validate_conn", "_get_timeout", "_raise_timeout", "urlopen", "_close_pool_connections"}
+    helpers_r8 = set()
+    for c_ in m.mro(f"{CP}.HTTPConnectionPool"):
+        ci_ = m.classes.get(c_)
+        if ci_ is None or not c_.startswith("urllib3."):
+            continue
+        for n_, f_ in ci_.methods.items():
+            if n_.startswith("_") and not n_.startswith("__") and n_ not in modelled_r8:
+                helpers_r8.add(f_.qual)
+    for f_ in m.repo_funcs():
+        if f_.module == CP and f_.cls is None and f_.name.startswith("_") and f_.name not in modelled_r8:
+            helpers_r8.add(f_.qual)
     for cls_q in (f"{CP}.HTTPConnectionPool",):
         fi = m.method(cls_q, "urlopen")
         for root, reason in ROOTS.items():
             rule = TransRule(qf, m.norm(root))
-            it = Interp(m, rule, cls_q, fi.module, frozenset(), budget=Budget(400000))
+            it = Interp(m, rule, cls_q, fi.module, frozenset(helpers_r8), budget=Budget(400000))
             it.relevant = None  # track everything: local names are not part of the rule
             st = State()
             for a in fi.node.args.args[1:] + fi.node.args.kwonlyargs:
